@@ -430,3 +430,236 @@ func sizerMeasuresWhatWriterEmits(c *core.Ctx, r *core.Rule) {
 		r.Missing("serialize/sizer-writer pairs", "no unambiguous sizer/writer pair over one struct type found")
 	}
 }
+
+// conditionalLayoutAgreement (R6.10): where DecodeFromBytes reads a field at a
+// running offset and SerializeTo writes the same field at a running offset,
+// the offset of the field is the sum of the advances made before it, each
+// under some presence flags of the layer.  The set of flag combinations that
+// guard the advances in the definition chain of the offset must be the same
+// on both sides: a field that the serializer writes before an optional part
+// the decoder expects in front of it lands at another position whenever that
+// part is present.
+func conditionalLayoutAgreement(c *core.Ctx, r *core.Rule) {
+	p := c.P
+	roots := p.Roots()
+	n := 0
+	for _, d := range roots.Dec {
+		if d.Kind != "DecodeFromBytes" || d.Fn.Signature.Recv() == nil || d.Data == nil {
+			continue
+		}
+		ser := methodOf(p, d.Fn.Signature.Recv().Type(), "SerializeTo")
+		if ser == nil || len(ser.Blocks) == 0 || ser.Synthetic != "" {
+			continue
+		}
+		guardOf := func(fn *ssa.Function, b *ssa.BasicBlock) string {
+			var fs []string
+			for _, dc := range core.DomConds(b) {
+				var walk func(v ssa.Value, k int)
+				walk = func(v ssa.Value, k int) {
+					if k > 6 {
+						return
+					}
+					switch x := v.(type) {
+					case *ssa.UnOp:
+						if x.Op == token.MUL {
+							if pth, ok := core.RecvFieldAddrPath(fn, x.X); ok {
+								if bt, isB := x.Type().Underlying().(*types.Basic); isB && bt.Kind() == types.Bool {
+									fs = append(fs, pth)
+								}
+							}
+							return
+						}
+						walk(x.X, k+1)
+					case *ssa.BinOp:
+						walk(x.X, k+1)
+						walk(x.Y, k+1)
+					case *ssa.Phi:
+						for _, e := range x.Edges {
+							walk(e, k+1)
+						}
+						// short-circuit: the tests that chose the edge
+						if idom := x.Block().Idom(); idom != nil {
+							if iff, ok := idom.Instrs[len(idom.Instrs)-1].(*ssa.If); ok {
+								walk(iff.Cond, k+1)
+							}
+						}
+					}
+				}
+				walk(dc.V, 0)
+			}
+			sort.Strings(fs)
+			var u []string
+			for i, f := range fs {
+				if i == 0 || fs[i-1] != f {
+					u = append(u, f)
+				}
+			}
+			return strings.Join(u, "|")
+		}
+		chainGuards := func(fn *ssa.Function, idx ssa.Value) (map[string]bool, bool) {
+			out := map[string]bool{}
+			seen := map[ssa.Value]bool{}
+			hasPhi := false
+			var walk func(v ssa.Value, k int)
+			walk = func(v ssa.Value, k int) {
+				if k > 40 || seen[v] {
+					return
+				}
+				seen[v] = true
+				switch x := v.(type) {
+				case *ssa.Phi:
+					hasPhi = true
+					for _, e := range x.Edges {
+						walk(e, k+1)
+					}
+				case *ssa.BinOp:
+					if x.Op == token.ADD {
+						if g := guardOf(fn, x.Block()); g != "" {
+							out[g] = true
+						}
+						walk(x.X, k+1)
+						walk(x.Y, k+1)
+					}
+				case *ssa.Convert:
+					walk(x.X, k+1)
+				}
+			}
+			walk(idx, 0)
+			return out, hasPhi
+		}
+		isData := func(v ssa.Value) bool {
+			if v == ssa.Value(d.Data) {
+				return true
+			}
+			// a parameter captured by a closure lives in a cell
+			if ld, ok := v.(*ssa.UnOp); ok && ld.Op == token.MUL {
+				if al, ok := ld.X.(*ssa.Alloc); ok {
+					for _, ref := range *al.Referrers() {
+						if st, ok := ref.(*ssa.Store); ok && st.Addr == ssa.Value(al) && st.Val == ssa.Value(d.Data) {
+							return true
+						}
+					}
+				}
+			}
+			return false
+		}
+		// decode: field <- data[idx...]
+		decG := map[string]map[string]bool{}
+		core.Instrs(d.Fn, func(ins ssa.Instruction) {
+			st, ok := ins.(*ssa.Store)
+			if !ok {
+				return
+			}
+			pth, ok := core.RecvFieldAddrPath(d.Fn, st.Addr)
+			if !ok {
+				return
+			}
+			// the value comes from data at a φ-dependent index
+			var idx ssa.Value
+			var find func(v ssa.Value, k int)
+			find = func(v ssa.Value, k int) {
+				if k > 6 || idx != nil {
+					return
+				}
+				switch x := v.(type) {
+				case *ssa.Convert:
+					find(x.X, k+1)
+				case *ssa.ChangeType:
+					find(x.X, k+1)
+				case *ssa.Call:
+					if _, _, put, ok := binaryOrder(x); ok && !put && len(x.Call.Args) == 2 {
+						find(x.Call.Args[1], k+1)
+					}
+				case *ssa.Slice:
+					if isData(x.X) && x.Low != nil {
+						idx = x.Low
+					}
+				case *ssa.UnOp:
+					if x.Op == token.MUL {
+						if ia, ok := x.X.(*ssa.IndexAddr); ok && isData(ia.X) {
+							idx = ia.Index
+						}
+					}
+				case *ssa.BinOp:
+					find(x.X, k+1)
+					find(x.Y, k+1)
+				}
+			}
+			find(st.Val, 0)
+			if idx == nil {
+				return
+			}
+			if g, phi := chainGuards(d.Fn, idx); phi {
+				if decG[pth] == nil {
+					decG[pth] = g
+				}
+			}
+		})
+		if len(decG) == 0 {
+			continue
+		}
+		// serialize: PutUintN(buf[idx:...], conv(field)) / buf[idx] = conv(field)
+		serG := map[string]map[string]bool{}
+		fieldOf := func(v ssa.Value) string {
+			v = core.StripConv(v)
+			if ld, ok := v.(*ssa.UnOp); ok && ld.Op == token.MUL {
+				if pth, ok := core.RecvFieldAddrPath(ser, ld.X); ok {
+					return pth
+				}
+			}
+			return ""
+		}
+		core.Instrs(ser, func(ins ssa.Instruction) {
+			switch x := ins.(type) {
+			case *ssa.Call:
+				if _, _, put, ok := binaryOrder(x); ok && put && len(x.Call.Args) == 3 {
+					f := fieldOf(x.Call.Args[2])
+					sl, isSl := x.Call.Args[1].(*ssa.Slice)
+					if f == "" || !isSl || sl.Low == nil {
+						return
+					}
+					if g, phi := chainGuards(ser, sl.Low); phi && serG[f] == nil {
+						serG[f] = g
+					}
+				}
+			case *ssa.Store:
+				if ia, ok := x.Addr.(*ssa.IndexAddr); ok {
+					if f := fieldOf(x.Val); f != "" {
+						if g, phi := chainGuards(ser, ia.Index); phi && serG[f] == nil {
+							serG[f] = g
+						}
+					}
+				}
+			}
+		})
+		var fs []string
+		for f := range decG {
+			if _, ok := serG[f]; ok {
+				fs = append(fs, f)
+			}
+		}
+		sort.Strings(fs)
+		tn := recvTypeName(d.Fn)
+		for _, f := range fs {
+			n++
+			names := func(m map[string]bool) string {
+				var s []string
+				for k := range m {
+					s = append(s, "{"+k+"}")
+				}
+				sort.Strings(s)
+				return strings.Join(s, " ")
+			}
+			key := "layers." + tn + "." + f + "/conditional-offset"
+			if names(decG[f]) == names(serG[f]) {
+				r.OK(key, p.Pos(ser.Pos()), "the advances before "+f+" are guarded by "+names(decG[f])+" on both sides")
+			} else {
+				r.Violate(key, p.Pos(ser.Pos()), fmt.Sprintf("DecodeFromBytes reads %s after advances guarded by %s, SerializeTo writes it after advances guarded by %s: when the optional parts that differ are present the field is written at another position than the one it is read from, so the bytes written do not decode back to this layer", f, names(decG[f]), names(serG[f])), nil)
+			}
+		}
+	}
+	c.Counts["conditional_offset_fields"] = n
+	if n < 2 {
+		r.Missing("layers/conditional offsets", fmt.Sprintf("only %d fields with a running offset on both sides found", n))
+	}
+}
